@@ -147,6 +147,33 @@ def parseJoin (isOuter : Bool) (s : PSt) : PRes PJoin :=
   try! (rightColumn, s) ← consumeIdentifier s;
   .ok { joinerTable, joinerFilename, leftTable, leftColumn, rightTable, rightColumn, isOuter } s
 
+/-- `match self.current() { Token::Keyword(Keyword::As) => { self.next()?; name = Some(self.consume_identifier()?) } _ => {} }` -/
+def optAlias (s : PSt) : PRes (Option (List Char)) :=
+  if s.cur.tok = .kw .as then
+    try! (_, s) ← next s;
+    try! (n, s) ← consumeIdentifier s;
+    .ok (some n) s
+  else .ok none s
+
+/-- `if self.current() == &Token::Keyword(Keyword::Distinct) { self.next()?; distinct = true }` -/
+def optDistinct (s : PSt) : PRes Bool :=
+  if s.cur.tok = .kw .distinct then
+    try! (_, s) ← next s;
+    .ok true s
+  else .ok false s
+
+/-- `if self.current() == &Token::DoubleColon { self.next()?; filename = Some(self.consume_string()?) }` -/
+def optFile (s : PSt) : PRes (Option (List Char)) :=
+  if s.cur.tok = .dcolon then
+    try! (_, s) ← next s;
+    try! (f, s) ← consumeString s;
+    .ok (some f) s
+  else .ok none s
+
+/-- `if self.current() == &Token::SemiColon { self.next()?; }` -/
+def optSemi (s : PSt) : PRes Unit :=
+  if s.cur.tok = .semi then next s else .ok () s
+
 /-- the projection loop of `parse_select`: one `expr [AS name]` per turn, ended by `FROM` -/
 def projLoop (T : PrecTables) (fuel : Nat) (acc : List (Option (List Char) × PExpr)) (s : PSt) :
     PRes (List (Option (List Char) × PExpr)) :=
@@ -154,13 +181,7 @@ def projLoop (T : PrecTables) (fuel : Nat) (acc : List (Option (List Char) × PE
   | 0 => .fuel
   | fuel + 1 =>
     try! (projection, s) ← parseExpr T fuel s;
-    let named : PRes (Option (List Char)) :=
-      if s.cur.tok = .kw .as then
-        try! (_, s) ← next s;
-        try! (n, s) ← consumeIdentifier s;
-        .ok (some n) s
-      else .ok none s
-    try! (name, s) ← named;
+    try! (name, s) ← optAlias s;
     let acc := acc ++ [(name, projection)]
     if s.cur.tok = .comma then
       try! (_, s) ← next s;
@@ -181,79 +202,74 @@ def groupKeysLoop (T : PrecTables) (fuel : Nat) (acc : List PExpr) (s : PSt) : P
       groupKeysLoop T fuel (acc ++ [e]) s
     else .ok acc s
 
-/-- the clause loop of `parse_select`: one clause per turn. Note where each `AlreadyHave…` check sits relative to
-`next`: WHERE and GROUP BY are checked *after* the keyword(s) were consumed, JOIN / HAVING / LIMIT before. -/
+/-- one turn of the clause loop of `parse_select`: the clause at the current token goes into its own slot; the
+flag is the `break` of the `;` arm. Note where each `AlreadyHave…` check sits relative to `next`: WHERE and GROUP BY
+are checked *after* the keyword(s) were consumed, JOIN / HAVING / LIMIT before. -/
+def clauseTurn (T : PrecTables) (fuel : Nat) (c : Clauses) (s : PSt) : PRes (Clauses × Bool) :=
+  if s.cur.tok = .kw .where then
+    try! (_, s) ← next s;
+    if c.filter.isSome then mkErr s .alreadyHaveWhere
+    else
+      try! (e, s) ← parseExpr T fuel s;
+      .ok ({ c with filter := some e }, false) s
+  else if s.cur.tok = .kw .inner then
+    if c.join.isSome then mkErr s .alreadyHaveJoin
+    else
+      try! (j, s) ← parseJoin false s;
+      .ok ({ c with join := some j }, false) s
+  else if s.cur.tok = .kw .outer then
+    if c.join.isSome then mkErr s .alreadyHaveJoin
+    else
+      try! (j, s) ← parseJoin true s;
+      .ok ({ c with join := some j }, false) s
+  else if s.cur.tok = .kw .group then
+    try! (_, s) ← next s;
+    try! (_, s) ← expectConsume (.kw .by) (.expectedKeyword .by) s;
+    if c.groupBy.isSome then mkErr s .alreadyHaveGroupBy
+    else
+      try! (k, s) ← parseExpr T fuel s;
+      try! (keys, s) ← groupKeysLoop T fuel [k] s;
+      .ok ({ c with groupBy := some keys }, false) s
+  else if s.cur.tok = .kw .having then
+    if c.having.isSome then mkErr s .alreadyHaveHaving
+    else
+      try! (_, s) ← next s;
+      try! (e, s) ← parseExpr T fuel s;
+      .ok ({ c with having := some e }, false) s
+  else if s.cur.tok = .kw .limit then
+    if c.limit.isSome then mkErr s .alreadyHaveLimit
+    else
+      try! (_, s) ← next s;
+      try! (n, s) ← consumeInt s;
+      .ok ({ c with limit := some (asUsize n) }, false) s
+  else if s.cur.tok = .semi then
+    try! (_, s) ← next s;
+    .ok (c, true) s
+  else mkErr s (.expectedAnyKeyword [.where, .group])
+
+/-- the clause loop of `parse_select`: one clause per turn, until `;` (consumed) or `End` -/
 def clauseLoop (T : PrecTables) (fuel : Nat) (c : Clauses) (s : PSt) : PRes Clauses :=
   match fuel with
   | 0 => .fuel
   | fuel + 1 =>
-    let turn : PRes (Clauses × Bool) :=           -- the slots and "break"
-      if s.cur.tok = .kw .where then
-        try! (_, s) ← next s;
-        if c.filter.isSome then mkErr s .alreadyHaveWhere
-        else
-          try! (e, s) ← parseExpr T fuel s;
-          .ok ({ c with filter := some e }, false) s
-      else if s.cur.tok = .kw .inner then
-        if c.join.isSome then mkErr s .alreadyHaveJoin
-        else
-          try! (j, s) ← parseJoin false s;
-          .ok ({ c with join := some j }, false) s
-      else if s.cur.tok = .kw .outer then
-        if c.join.isSome then mkErr s .alreadyHaveJoin
-        else
-          try! (j, s) ← parseJoin true s;
-          .ok ({ c with join := some j }, false) s
-      else if s.cur.tok = .kw .group then
-        try! (_, s) ← next s;
-        try! (_, s) ← expectConsume (.kw .by) (.expectedKeyword .by) s;
-        if c.groupBy.isSome then mkErr s .alreadyHaveGroupBy
-        else
-          try! (k, s) ← parseExpr T fuel s;
-          try! (keys, s) ← groupKeysLoop T fuel [k] s;
-          .ok ({ c with groupBy := some keys }, false) s
-      else if s.cur.tok = .kw .having then
-        if c.having.isSome then mkErr s .alreadyHaveHaving
-        else
-          try! (_, s) ← next s;
-          try! (e, s) ← parseExpr T fuel s;
-          .ok ({ c with having := some e }, false) s
-      else if s.cur.tok = .kw .limit then
-        if c.limit.isSome then mkErr s .alreadyHaveLimit
-        else
-          try! (_, s) ← next s;
-          try! (n, s) ← consumeInt s;
-          .ok ({ c with limit := some (asUsize n) }, false) s
-      else if s.cur.tok = .semi then
-        try! (_, s) ← next s;
-        .ok (c, true) s
-      else mkErr s (.expectedAnyKeyword [.where, .group])
-    try! (cb, s) ← turn;
+    try! (cb, s) ← clauseTurn T fuel c s;
     if cb.2 then .ok cb.1 s
     else if s.cur.tok = .eof then .ok cb.1 s
     else clauseLoop T fuel cb.1 s
 
+/-- `if self.current() != &Token::End { loop { … } }` -/
+def clauses (T : PrecTables) (fuel : Nat) (s : PSt) : PRes Clauses :=
+  if s.cur.tok ≠ .eof then clauseLoop T fuel {} s else .ok {} s
+
 /-- `parse_select` (called on `SELECT`) -/
 def parseSelect (T : PrecTables) (fuel : Nat) (s : PSt) : PRes POp :=
   try! (_, s) ← next s;
-  let dist : PRes Bool :=
-    if s.cur.tok = .kw .distinct then
-      try! (_, s) ← next s;
-      .ok true s
-    else .ok false s
-  try! (distinct, s) ← dist;
+  try! (distinct, s) ← optDistinct s;
   let loc := s.cur.loc
   try! (projections, s) ← projLoop T fuel [] s;
   try! (fromTable, s) ← consumeIdentifier s;
-  let file : PRes (Option (List Char)) :=
-    if s.cur.tok = .dcolon then
-      try! (_, s) ← next s;
-      try! (f, s) ← consumeString s;
-      .ok (some f) s
-    else .ok none s
-  try! (fromFile, s) ← file;
-  let clauses : PRes Clauses := if s.cur.tok ≠ .eof then clauseLoop T fuel {} s else .ok {} s
-  try! (c, s) ← clauses;
+  try! (fromFile, s) ← optFile s;
+  try! (c, s) ← clauses T fuel s;
   .ok (.select { loc, projections, fromTable, fromFile, filter := c.filter, groupBy := c.groupBy, having := c.having,
                  join := c.join, limit := c.limit, distinct }) s
 
@@ -373,65 +389,72 @@ def jsonLoop (fuel : Nat) (acc : List PJsonStep) (s : PSt) : PRes (List PJsonSte
 /-- `format!("_pattern{}", n)` -/
 def inlinePatternName (n : Nat) : List Char := "_pattern".toList ++ (toString n).toList
 
+/-- `if self.current() == &Token::Comma { loop { … } }` after the first `name[i]` of a column -/
+def optRefs (fuel : Nat) (first : PRegexRef) (s : PSt) : PRes (List PRegexRef) :=
+  if s.cur.tok = .comma then refLoop fuel [first] s else .ok [first] s
+
+/-- `ColumnParsing::Regex` for one reference, `MultiRegex` otherwise -/
+def parsingOfRefs : List PRegexRef → PColParsing
+  | [r] => .regex r
+  | rs => .multiRegex rs
+
+abbrev Patterns := List (List Char × List Char × PRegexMode)
+
+/-- one item of `parse_create_table`: a pattern definition or a column definition; `none` = the `)` arm (`break`) -/
+def colItem (T : PrecTables) (fuel : Nat) (patterns : Patterns) (columns : List PColDef) (s : PSt) :
+    PRes (Option (Patterns × List PColDef)) :=
+  match s.cur.tok with
+  | .ident patternName =>
+    try! (_, s) ← next s;
+    if s.cur.tok = .op (.single '=') then
+      try! (_, s) ← next s;
+      try! (mode, s) ← parseRegexMode s;
+      try! (pattern, s) ← consumeString s;
+      .ok (some (patterns ++ [(patternName, pattern, mode)], columns)) s
+    else if s.cur.tok = .lsq then
+      try! (_, s) ← next s;
+      try! (g, s) ← consumeInt s;
+      try! (_, s) ← expectConsume .rsq .expectedRightSquareParentheses s;
+      try! (refs, s) ← optRefs fuel { pattern := patternName, group := asUsize g } s;
+      try! (_, s) ← expectConsume .rarrow .expectedRightArrow s;
+      try! (col, s) ← parseDefineColumn T fuel (parsingOfRefs refs) s;
+      .ok (some (patterns, columns ++ [col])) s
+    else mkErr s .expectedColumnDefinitionStart
+  | .str pattern =>
+    try! (_, s) ← next s;
+    try! (_, s) ← expectConsume .rarrow .expectedRightArrow s;
+    try! (col, s) ← parseDefineColumn T fuel (.regex { pattern := inlinePatternName patterns.length, group := 1 }) s;
+    .ok (some (patterns ++ [(inlinePatternName patterns.length, pattern, .captures)], columns ++ [col])) s
+  | .lcu =>
+    try! (_, s) ← next s;
+    try! (parts, s) ← jsonLoop fuel [] s;
+    try! (_, s) ← expectConsume .rarrow .expectedRightArrow s;
+    if parts.isEmpty then mkErr s .expectedJsonColumnPartStart
+    else
+      try! (col, s) ← parseDefineColumn T fuel (.json parts) s;
+      .ok (some (patterns, columns ++ [col])) s
+  | .rp =>
+    try! (_, s) ← next s;
+    .ok none s
+  | _ => mkErr s .expectedColumnDefinitionStart
+
 /-- the item loop of `parse_create_table`: one pattern definition or column definition per turn; ends after the
 closing `)` was consumed -/
-def colLoop (T : PrecTables) (fuel : Nat) (patterns : List (List Char × List Char × PRegexMode)) (columns : List PColDef)
-    (s : PSt) : PRes (List (List Char × List Char × PRegexMode) × List PColDef) :=
+def colLoop (T : PrecTables) (fuel : Nat) (patterns : Patterns) (columns : List PColDef) (s : PSt) :
+    PRes (Patterns × List PColDef) :=
   match fuel with
   | 0 => .fuel
   | fuel + 1 =>
-    -- the item; `none` = the `)` arm (`break`)
-    let item : PRes (Option (List (List Char × List Char × PRegexMode) × List PColDef)) :=
-      match s.cur.tok with
-      | .ident patternName =>
-        try! (_, s) ← next s;
-        if s.cur.tok = .op (.single '=') then
-          try! (_, s) ← next s;
-          try! (mode, s) ← parseRegexMode s;
-          try! (pattern, s) ← consumeString s;
-          .ok (some (patterns ++ [(patternName, pattern, mode)], columns)) s
-        else if s.cur.tok = .lsq then
-          try! (_, s) ← next s;
-          try! (g, s) ← consumeInt s;
-          try! (_, s) ← expectConsume .rsq .expectedRightSquareParentheses s;
-          let first : PRegexRef := { pattern := patternName, group := asUsize g }
-          let more : PRes (List PRegexRef) := if s.cur.tok = .comma then refLoop fuel [first] s else .ok [first] s
-          try! (refs, s) ← more;
-          try! (_, s) ← expectConsume .rarrow .expectedRightArrow s;
-          let parsing : PColParsing := match refs with
-            | [r] => .regex r
-            | rs => .multiRegex rs
-          try! (col, s) ← parseDefineColumn T fuel parsing s;
-          .ok (some (patterns, columns ++ [col])) s
-        else mkErr s .expectedColumnDefinitionStart
-      | .str pattern =>
-        try! (_, s) ← next s;
-        try! (_, s) ← expectConsume .rarrow .expectedRightArrow s;
-        let patternName := inlinePatternName patterns.length
-        try! (col, s) ← parseDefineColumn T fuel (.regex { pattern := patternName, group := 1 }) s;
-        .ok (some (patterns ++ [(patternName, pattern, .captures)], columns ++ [col])) s
-      | .lcu =>
-        try! (_, s) ← next s;
-        try! (parts, s) ← jsonLoop fuel [] s;
-        try! (_, s) ← expectConsume .rarrow .expectedRightArrow s;
-        if parts.isEmpty then mkErr s .expectedJsonColumnPartStart
-        else
-          try! (col, s) ← parseDefineColumn T fuel (.json parts) s;
-          .ok (some (patterns, columns ++ [col])) s
-      | .rp =>
-        try! (_, s) ← next s;
-        .ok none s
-      | _ => mkErr s .expectedColumnDefinitionStart
-    try! (r, s) ← item;
+    try! (r, s) ← colItem T fuel patterns columns s;
     match r with
     | none => .ok (patterns, columns) s
-    | some (patterns, columns) =>
+    | some pc =>
       if s.cur.tok = .comma then
         try! (_, s) ← next s;
-        colLoop T fuel patterns columns s
+        colLoop T fuel pc.1 pc.2 s
       else if s.cur.tok = .rp then
         try! (_, s) ← next s;
-        .ok (patterns, columns) s
+        .ok pc s
       else mkErr s .expectedColumnDefinitionContinuation
 
 /-- `parse_create_table` (called on `CREATE`) -/
@@ -445,6 +468,11 @@ def parseCreateTable (T : PrecTables) (fuel : Nat) (s : PSt) : PRes PCreate :=
   try! (_, s) ← expectConsume .semi .expectedSemiColon s;
   .ok { loc, endLoc := s.cur.loc, name, patterns := pc.1, columns := pc.2 } s
 
+/-- `if operations.len() == 1 { operations.remove(0) } else { Multiple(operations) }` -/
+def opOfCreates : List PCreate → POp
+  | [one] => .createTable one
+  | many => .multiple many
+
 /-- `parse_multiple_create_table`: one `CREATE TABLE … ;` per turn while the next token is `CREATE` -/
 def multiCreateLoop (T : PrecTables) (fuel : Nat) (acc : List PCreate) (s : PSt) : PRes POp :=
   match fuel with
@@ -452,27 +480,25 @@ def multiCreateLoop (T : PrecTables) (fuel : Nat) (acc : List PCreate) (s : PSt)
   | fuel + 1 =>
     try! (c, s) ← parseCreateTable T fuel s;
     let acc := acc ++ [c]
-    if s.cur.tok ≠ .kw .create then
-      match acc with
-      | [one] => .ok (.createTable one) s
-      | many => .ok (.multiple many) s
+    if s.cur.tok ≠ .kw .create then .ok (opOfCreates acc) s
     else multiCreateLoop T fuel acc s
+
+/-- the statement parser `Parser::parse` dispatches to -/
+def parseStatement (T : PrecTables) (fuel : Nat) (s : PSt) : PRes POp :=
+  if s.cur.tok = .kw .select then parseSelect T fuel s else multiCreateLoop T fuel [] s
 
 /-- `Parser::parse` after its first `next()`: dispatch, the optional `;` (looked for whatever the statement parser
 answered, in the state it left), the `TooManyTokens` check -/
 def parseOp (T : PrecTables) (fuel : Nat) (s : PSt) : PRes POp :=
   if s.cur.tok ≠ .kw .select ∧ s.cur.tok ≠ .kw .create then mkErr s (.expectedAnyKeyword [.select, .create])
   else
-    let operation := if s.cur.tok = .kw .select then parseSelect T fuel s else multiCreateLoop T fuel [] s
-    match operation with
+    match parseStatement T fuel s with
     | .fuel => .fuel
     | .ok op s =>
-      let semi : PRes Unit := if s.cur.tok = .semi then next s else .ok () s
-      try! (_, s) ← semi;
+      try! (_, s) ← optSemi s;
       if s.rest.isEmpty then .ok op s else mkErr s .tooManyTokens
     | .err e s =>
-      let semi : PRes Unit := if s.cur.tok = .semi then next s else .ok () s
-      try! (_, s) ← semi;
+      try! (_, s) ← optSemi s;
       .err e s
 
 /-- `Parser::new(…, tokens).parse()` with explicit fuel -/
